@@ -905,6 +905,63 @@ mod verif_xc_ack_waiter {
     two_waits_test(2, 4, Slot::Reliable(0));
   }
 
+  // ---- two OVERLAPPING waits (the caller of wait#1 is still listening when wait#2 arrives).  The writer has
+  // one waiter slot; whatever it does with the displaced waiter, the statement forbids telling wait#1 "yes"
+  // unless every reliable reader matched at wait#1 acknowledged everything written before wait#1 or was lost
+  // (seed C20g: a Drop impl on the waiter sent the token when the slot was overwritten).
+  // Bound: L1 in 1..=2 samples before wait#1, 0..=1 more before wait#2; g1 reliable with acked in {0, L1};
+  // g2 absent | best-effort | reliable(0); between the waits at most one event out of ACKNACK(g1, base L1)
+  // (does not acknowledge L1) / nothing; after wait#2 the acknowledging ACKNACKs.
+  #[test]
+  fn xc_wfa_overlapping_waits_no_false_yes() {
+    let mut n = 0u64;
+    for l1 in 1..=2i64 {
+      for extra in 0..=1i64 {
+        for g2 in [Slot::Absent, Slot::BestEffort(0), Slot::Reliable(0)] {
+          for stale_ack in [false, true] {
+            let mut rig = Rig::new();
+            for _ in 0..l1 {
+              rig.write_one();
+            }
+            let cfg = [Slot::Reliable(0), g2, Slot::Absent];
+            setup(&mut rig, &cfg);
+            let (tx1, rx1) = sync_status_channel::<()>(8).unwrap();
+            rig.wait_command_on(tx1);
+            let ctx = format!(
+              "history: {} samples written, g1 reliable (acked nothing), g2 {:?}, wait#1; {}{} more sample(s); wait#2 while wait#1 is still pending: ",
+              l1, g2, if stale_ack { "ACKNACK(g1, base L1) (acknowledges L1-1 only); " } else { "" }, extra
+            );
+            assert!(rx1.try_recv().is_err(), "XC-WITNESS label=wfa.overlap.no_false_yes {}wait#1 got a success token at once", ctx);
+            if stale_ack {
+              rig.acknack(0, l1);
+            }
+            for _ in 0..extra {
+              rig.write_one();
+            }
+            assert!(rx1.try_recv().is_err(), "XC-WITNESS label=wfa.overlap.no_false_yes {}wait#1 got a success token before wait#2 although g1 has not acknowledged sample {}", ctx, l1);
+            rig.wait_command();
+            assert!(
+              rx1.try_recv().is_err(),
+              "XC-WITNESS label=wfa.overlap.no_false_yes {}the caller of wait#1 was sent a success token when wait#2 was processed, although reliable reader g1 has acknowledged nothing beyond {} and was not lost",
+              ctx, if stale_ack { l1 - 1 } else { 0 }
+            );
+            assert!(rig.tokens() == 0, "XC-WITNESS label=wfa.overlap.no_false_yes {}wait#2 got a success token although g1 has not acknowledged", ctx);
+            // g1 (and a reliable g2) acknowledge everything: wait#2 completes, exactly once
+            rig.acknack(0, l1 + extra + 1);
+            if let Slot::Reliable(_) = g2 {
+              assert!(rig.tokens() == 0, "XC-WITNESS label=wfa.overlap.second {}wait#2 completed before reliable g2 acknowledged", ctx);
+              rig.acknack(1, l1 + extra + 1);
+            }
+            let t = rig.tokens();
+            assert!(t == 1, "XC-WITNESS label=wfa.overlap.second {}after every reliable reader acknowledged up to {}, wait#2 was sent {} success tokens (expected 1)", ctx, l1 + extra, t);
+            n += 1;
+          }
+        }
+      }
+    }
+    assert!(n == 24, "vacuity guard: {} histories", n);
+  }
+
   // ------------------------------------------------------------------------------------------
   // (3) DataWriter level: what the application is told.  A real with_key::DataWriter whose
   //     command channel ends in the test instead of an RTPS Writer, so that the test decides the
